@@ -21,6 +21,7 @@ use super::{BasePath, ChangeExt};
 pub trait ActionContext {
     fn key_of(&self, node_id: NodeId) -> Key;
     fn collect(&self, key: &Key) -> Tree;
+    fn key_exists(&self, key: &Key) -> bool;
     fn squash(&self, key: &Key, depth: u8) -> Tree;
     fn random_key(&self, parent: &str) -> Key;
     fn markdown_options(&self) -> &MarkdownOptions;
@@ -524,6 +525,12 @@ impl ActionProvider for ListToSections {
     }
 }
 
+// a reference can be inlined when the note it names exists and is not the note holding it
+fn can_inline(key: &Key, tree: &Tree, reference_id: NodeId, context: &impl ActionContext) -> bool {
+    let inline_key = tree.reference_key(reference_id);
+    inline_key != *key && context.key_exists(&inline_key)
+}
+
 pub struct ReferenceInlineSection {}
 impl ActionProvider for ReferenceInlineSection {
     fn identifier(&self) -> String {
@@ -535,6 +542,8 @@ impl ActionProvider for ReferenceInlineSection {
         let tree = context.collect(&key);
         Some(target_id)
             .filter(|target_id| tree.get(*target_id).is_reference())
+            .filter(|target_id| can_inline(&key, &tree, *target_id, &context))
+            .filter(|target_id| tree.get_surrounding_section_id(*target_id).is_some())
             .map(|_| Action {
                 title: "Inline section".to_string(),
                 identifier: self.identifier(),
@@ -586,6 +595,7 @@ impl ActionProvider for ReferenceInlineQuote {
         let tree = context.collect(&key);
         Some(target_id)
             .filter(|target_id| tree.get(*target_id).is_reference())
+            .filter(|target_id| can_inline(&key, &tree, *target_id, &context))
             .map(|_| Action {
                 title: "Inline quote".to_string(),
                 identifier: self.identifier(),
